@@ -31,6 +31,7 @@ func checkC16(p *Prog, r *Report) {
 	dateTextRules(p, r, "C16.R11")
 	inputHelpers(p, r, "C16.R12")
 	dateFrameRule(p, r, "C16.R13")
+	tillagePostponement(p, r, "C16.R14")
 }
 
 // C16.R9 — "with fixed dates sowing and harvest happen on the dates of the
